@@ -9,7 +9,7 @@
 
 static CC_TreeTable *tab = NULL;
 static CC_TreeSet *set = NULL;
-static int isset = 0, full = 1, cmpmode = 0;
+static int isset = 0, full = 1 /* 0 lite, 1 full, 2 huge */, cmpmode = 0;
 static unsigned long long ncmp = 0;
 static uintptr_t pool[64]; static int npool = 0;
 static CC_TreeTableIter iter; static CC_TreeSetIter siter; static int iter_ok = 0;
@@ -21,6 +21,12 @@ static int raw_cmp(const void *a, const void *b) {
     return x < y ? -1 : (x > y ? 1 : 0);
 }
 static int counting_cmp(const void *a, const void *b) { ncmp++; return raw_cmp(a, b); }
+/* "huge" observation mode: 10^5-key histories exceed the ledger's capacity, so the table gets the real allocator
+   and the ledger token is the constant L=0,0,0 on both sides */
+static void *raw_malloc(size_t n) { return (malloc)(n); }
+static void *raw_calloc(size_t a, size_t b) { return (calloc)(a, b); }
+static void raw_free(void *p) { (free)(p); }
+static void ledger(void) { if (full == 2) printf(" L=0,0,0"); else vf_ledger(); }
 
 static CC_TreeTable *T_(void) { return isset ? set->t : tab; }
 
@@ -59,7 +65,7 @@ static void obs(unsigned long long k, size_t n_before) {
     CC_TreeTable *t = T_();
     int bal = k <= (unsigned long long)(2 * ilog2((unsigned long long)n_before + 1) + 2);
     size_t size = isset ? cc_treeset_size(set) : cc_treetable_size(tab);
-    if (!full) { printf(" | size=%zu bal=%d", size, bal); vf_ledger(); printf(" #T=- #K=%llu", k); return; }
+    if (full != 1) { printf(" | size=%zu bal=%d", size, bal); ledger(); printf(" #T=- #K=%llu", k); return; }
     printf(" | size=%zu keys=[", size);
     static uintptr_t vals[4096]; size_t nv = 0; int first = 1;
     if (isset) {
@@ -98,7 +104,7 @@ static void obs(unsigned long long k, size_t n_before) {
         printf("]");
     }
     printf(" rb=%d bal=%d", rb_ok(), bal);
-    vf_ledger();
+    ledger();
     printf(" #T="); shape(t->root, t->sentinel);
     printf(" #K=%llu", k);
 }
@@ -109,12 +115,13 @@ static void run_trace_header(int argc, char **argv) {
     isset = !strcmp(argv[3], "set");
     cmpmode = !strcmp(argv[4], "rev") ? 1 : !strcmp(argv[4], "q4") ? 2 : 0;
     int useconf = !strcmp(argv[5], "conf");
-    full = !strcmp(argv[6], "full");
+    full = !strcmp(argv[6], "full") ? 1 : !strcmp(argv[6], "huge") ? 2 : 0;
     npool = 0;
     if (strcmp(argv[7], "-")) { char *save = NULL; for (char *t = strtok_r(argv[7], ",", &save); t && npool < 64; t = strtok_r(NULL, ",", &save)) pool[npool++] = (uintptr_t)vf_num(t); }
     const char *plan = "";
     for (int i = 8; i < argc; i++) if (!strncmp(argv[i], "plan=", 5)) plan = argv[i] + 5;
     if (useconf) { conf.mem_alloc = vf_conf_malloc; conf.mem_calloc = vf_conf_calloc; conf.mem_free = vf_conf_free; }
+    if (full == 2) { useconf = 1; conf.mem_alloc = raw_malloc; conf.mem_calloc = raw_calloc; conf.mem_free = raw_free; }
     conf.cmp = counting_cmp;
     vf_set_plan(plan);
     enum cc_stat s;
@@ -122,7 +129,7 @@ static void run_trace_header(int argc, char **argv) {
     else s = useconf ? cc_treetable_new_conf(&conf, &tab) : cc_treetable_new(counting_cmp, &tab);
     printf("new %s", vf_stat(s));
     iter_ok = 0;
-    if (s == CC_OK) obs(0, 0); else { tab = NULL; set = NULL; printf(" |"); vf_ledger(); }
+    if (s == CC_OK) obs(0, 0); else { tab = NULL; set = NULL; printf(" |"); ledger(); }
 }
 
 static uintptr_t each_buf[4096]; static size_t each_n;
@@ -184,9 +191,9 @@ static void run_op(int argc, char **argv) {
 }
 
 static void run_trace_end(void) {
-    if (!tab && !set) { printf("end |"); vf_ledger(); return; }
+    if (!tab && !set) { printf("end |"); ledger(); return; }
     printf("end size=%zu rb=%d |", T_()->size, rb_ok());
     if (isset) cc_treeset_destroy(set); else cc_treetable_destroy(tab);
     tab = NULL; set = NULL;
-    vf_ledger();
+    ledger();
 }
